@@ -59,6 +59,9 @@ func NewCtx(p *ir.Program, prop, tier string) *Ctx {
 // Rule sets the current rule id and kind for subsequent obligations.
 func (c *Ctx) Rule(id, kind string) { c.rule, c.kind = id, kind }
 
+// CurrentRule returns the rule id and kind obligations are currently filed under.
+func (c *Ctx) CurrentRule() (string, string) { return c.rule, c.kind }
+
 func (c *Ctx) add(construct, pos string, st Status, detail string) *Obligation {
 	o := &Obligation{Rule: c.rule, Kind: c.kind, Construct: construct, Pos: pos, Status: st, Detail: detail}
 	k := o.Key()
